@@ -62,7 +62,7 @@ def _run_variant(args) -> Dict[str, Any]:
             rules = sorted({f.rule for f in R.findings if not match_known(var["prop"], f, known)})
             res["fired"] = rules
             res["messages"] = [f.text()[:300] for f in R.findings if not match_known(var["prop"], f, known)][:4]
-            res["analysis_error"] = None
+            res["analysis_error"] = "; ".join(R.errors)[:300] or None
         except AnalysisError as ex:
             res["fired"] = []
             res["analysis_error"] = str(ex)[:300]
